@@ -44,4 +44,36 @@ var checks = map[string]*check{
 			{Name: "routing-2id", Kind: "explore", Scen: "grpc_route", Inst: inst("pairs", "pairs-all"), Depths: depths([]int{1}, []int{1, 2}), Budget: budget(3*time.Minute, 25*time.Minute)},
 		},
 	},
+	"C09": {
+		Title: "Brokers stay live: unmatched, duplicate or late peers cannot wedge them",
+		Level: "model_checking",
+		Rule: "every history of <= 2 (quick) / <= 3 (thorough) events over {dial, accept} x {host, plugin} on one id with gaps {0, 2 s, 5 s (the expiry instant)} on MuxBroker and GRPCBroker " +
+			"(single events on the multiplexed broker), each followed by a matched pair on a fresh id and Close, under every schedule / timer order / select choice with <= d deviations; " +
+			"non-trivial = at least one decision point with >= 2 alternatives",
+		Assumptions: []string{
+			"interleavings inside yamux / gRPC are not enumerated",
+			"bounded-latency (T) verdicts only in executions without a TIME deviation; deadlock / leak (L) verdicts in all",
+			"multiplexed broker: histories respect the documented one-at-a-time rule",
+		},
+		Parts: []part{
+			{Name: "histories", Kind: "explore", Scen: "broker_hist", Inst: inst("quick", "thorough3"), Depths: depths([]int{2}, []int{2, 3}), Budget: budget(3*time.Minute, 25*time.Minute)},
+		},
+	},
+	"C08": {
+		Title: "Multiplexed gRPC broker routes each announced stream to its ID's listener",
+		Level: "model_checking",
+		Rule: "every sequence of 1 and 2 (thorough: 3) sequentially established brokered connections over (accept side, accept-first / dial-first, gap 0 / 1 s / 4.9 s) on the real multiplexed GRPCBroker " +
+			"(real yamux muxers, real gRPC), each followed by pings on the main and all earlier connections, under every schedule / timer order / select choice with <= d deviations; " +
+			"non-trivial = at least one decision point with >= 2 alternatives",
+		Assumptions: []string{
+			"establishments are strictly sequential, as the API documents",
+			"interleavings inside yamux / gRPC are not enumerated",
+			"first-call-succeeds (T) only in executions without a TIME deviation; routing (S) and main/earlier connections alive (L) in all",
+		},
+		Parts: []part{
+			{Name: "single", Kind: "explore", Scen: "grpcmux_seq", Inst: inst("single", "single"), Depths: depths([]int{2}, []int{2, 3}), Budget: budget(2*time.Minute, 10*time.Minute)},
+			{Name: "pairs", Kind: "explore", Scen: "grpcmux_seq", Inst: inst("pairs", "pairs"), Depths: depths([]int{1}, []int{1, 2}), Budget: budget(3*time.Minute, 20*time.Minute)},
+			{Name: "triples", Kind: "explore", Scen: "grpcmux_seq", Inst: inst("none", "triples"), Depths: depths([]int{0}, []int{1}), Budget: budget(time.Minute, 10*time.Minute)},
+		},
+	},
 }
